@@ -22,7 +22,8 @@ MANIFEST = dict(
          'defaults (DefaultValue(False)) never displace file values, explicit overrides win; the translated cpp '
          '_validate_language_options sets the group selected by std as a unit; with the copy function the code uses now '
          '(copy.deepcopy, regenerated flag) the merged configuration never reaches a dict object of a source document; a context is '
-         'unaffected by any calls on other builders; refuted for a re-used builder (known finding F-CFG-REUSE).',
+         'unaffected by any calls on other builders; for a re-used builder the live statement follows the regenerated shape of create(): '
+         'refuted while the context shares the builder config (known finding F-CFG-REUSE), full stability once create() hands out a deep copy.',
     note='Trusted: Coq kernel; translator tools/translators/gen_c13.py (Python ast -> Gallina for the leaf rule and deep_update, '
          'shape-pinned translation of cpp _validate_language_options and _create_language_context, yaml tables); extraction + OCaml '
          'driver; hand models of LanguageConfig/LanguageContextBuilder/Language.__init__ (validated by correspondence, not verified). '
@@ -264,12 +265,44 @@ def gen_builder_ops(rng, i: int, lang: str, n: int):
     return ops
 
 
+def other_value(rng, a):
+    if isinstance(a, bool):
+        return not a
+    if a in ('any', 'big', 'little'):
+        return rng.choice([x for x in ('any', 'big', 'little') if x != a])
+    return 'zz_conflict'
+
+
+def conflicting_file(rng, i: int, lang: str, ops):
+    """a yaml document giving another explicit value to something builder i's current overrides set explicitly"""
+    over = {}
+    for o in ops:
+        if o[0] == 'ovr' and o[3] != {'L': [False, None]}:
+            over[o[2]] = o[3]
+    cands = []
+    for k, v in over.items():
+        if 'L' in v and not v['L'][0] and not isinstance(v['L'][1], dict):
+            cands.append((k, None, v['L'][1]))
+        elif 'N' in v:
+            for ck, cv in v['N']:
+                if 'L' in cv and not cv['L'][0] and not isinstance(cv['L'][1], dict):
+                    cands.append((k, ck, cv['L'][1]))
+    if not cands:
+        return None
+    k, ck, a = rng.choice(cands)
+    leaf = L(other_value(rng, a))
+    return ['file', i, N([('nunavut.lang.' + lang, N([(k, leaf if ck is None else N([(ck, leaf)]))]))])]
+
+
 REUSE_WITNESS_OPS = [['new'], ['lang', 0, 'c'], ['ovr', 0, 'options', N([('target_endianness', L('big'))])], ['create', 0],
                      ['ovr', 0, 'options', N([('target_endianness', L('little'))])], ['create', 0]]
 
 
 def gen_proc_cases(rng, count: int):
     cases = [{'kind': 'proc', 'ops': REUSE_WITNESS_OPS},
+             {'kind': 'proc', 'ops': [['new'], ['lang', 0, 'c'], ['ovr', 0, 'options', N([('target_endianness', L('big'))])], ['create', 0],
+                                      ['file', 0, N([('nunavut.lang.c', N([('options', N([('target_endianness', L('little'))]))]))])],
+                                      ['create', 0]]},
              {'kind': 'proc', 'ops': [['new'], ['lang', 0, 'c'], ['upd', 0, N([('nunavut.lang.c', N([('zz', L(1))]))])],
                                       ['upd', 0, N([('nunavut.lang.c', N([('zz', N([('x', N([('y', L(1))]))]))]))])],
                                       ['upd', 0, N([('nunavut.lang.c', N([('zz', N([('x', N([('y', L(2))]))]))]))])], ['create', 0]]}]
@@ -281,7 +314,12 @@ def gen_proc_cases(rng, count: int):
         per = [[['new_'], ['lang', i, langs[i]]] + gen_builder_ops(rng, i, langs[i], rng.randrange(0, 6)) + [['create', i]] for i in range(nb)]
         if reuse:
             j = rng.randrange(nb)
-            per[j] += gen_builder_ops(rng, j, langs[j], rng.randrange(1, 3)) + [['create', j]]
+            more = gen_builder_ops(rng, j, langs[j], rng.randrange(1, 3))
+            if rng.random() < 0.5:    # a later file that contradicts an explicit override made before the first create()
+                c = conflicting_file(rng, j, langs[j], per[j])
+                if c is not None:
+                    more.insert(rng.randrange(len(more) + 1), c)
+            per[j] += more + [['create', j]]
         # interleave the builders' op lists, keeping each builder's own order; `new` must come in index order
         ops = [['new'] for _ in range(nb)]
         idx = [1] * nb
@@ -320,6 +358,9 @@ def permute_single_builder(rng, ops):
 
 def gen_cli_cases(rng, count: int):
     cases = []
+    for te_cli in ('any', 'big'):       # an explicit command-line value against a conflicting file value
+        cases.append({'kind': 'cli', 'argv': ['--target-language', 'c', '--target-endianness', te_cli], 'lang': 'c',
+                      'files': [N([('nunavut.lang.c', N([('options', N([('target_endianness', L('little'))]))]))])]})
     while len(cases) < count:
         lang = rng.choice(LANGS)
         argv = ['--target-language', lang] if rng.random() < 0.9 else []
@@ -338,8 +379,10 @@ def gen_cli_cases(rng, count: int):
             argv += ['--output-extension', rng.choice(['.x', 'hh'])]
         if rng.random() < 0.3:
             argv += ['--namespace-output-stem', 'stem']
-        cases.append({'kind': 'cli', 'argv': argv, 'files': [gen_section_doc(rng, lang, True) for _ in range(rng.randrange(0, 4))],
-                      'lang': lang})
+        files = [gen_section_doc(rng, lang, True) for _ in range(rng.randrange(0, 4))]
+        if '--target-endianness' in argv and rng.random() < 0.7:   # make the files disagree with the command line
+            files.append(N([('nunavut.lang.' + lang, N([('options', N([('target_endianness', L(rng.choice(['any', 'big', 'little'])))]))]))]))
+        cases.append({'kind': 'cli', 'argv': argv, 'files': files, 'lang': lang})
     return cases
 
 
@@ -407,13 +450,18 @@ def run_model(exe: str, codec: Codec, lines: typing.List[str]):
                     opt, j = codec.dec_tokens(toks, j)
                     creates.append({'i': bi, 'sections': sec, 'options': opt})
                     i = j + 1
-                final = []
+                final, ctxs = [], []
                 i += 1
-                while i < len(toks):
+                while i < len(toks) and toks[i] != 'X':
                     sec, i = codec.dec_tokens(toks, i)
                     final.append(sec)
                     i += 1
-                out.append({'creates': creates, 'final': final})
+                i += 1
+                while i < len(toks):
+                    sec, i = codec.dec_tokens(toks, i)
+                    ctxs.append(sec)
+                    i += 1
+                out.append({'creates': creates, 'final': final, 'ctx_final': ctxs})
             else:
                 out.append({'err': l[:200]})
         except Exception as ex:  # noqa
@@ -447,6 +495,50 @@ def touched_after_create(ops) -> typing.Dict[int, bool]:
         if o[0] == 'create':
             created.add(i)
     return reused
+
+
+def explicit_overrides_win(ops, creates):
+    """oracle: at every successful create() each explicit (not DefaultValue) value of the builder's current override map is what the
+    new context reports, whatever files were added before or after the override was set.  Exempt: options a language's validator
+    is documented to force (py enable_serialization_asserts; cpp keys of the std groups)."""
+    over: typing.Dict[int, typing.Dict[str, typing.Any]] = {}
+    lang: typing.Dict[int, str] = {}
+    bad = []
+    ci = 0
+    for op in ops:
+        if op[0] == 'ovr' and op[3] != {'L': [False, None]}:
+            over.setdefault(op[1], {})[op[2]] = canon(op[3])
+        elif op[0] == 'lang':
+            lang[op[1]] = op[2]
+        elif op[0] == 'langnone':
+            lang[op[1]] = 'c'
+        elif op[0] == 'create':
+            c = creates[ci]
+            ci += 1
+            if c['options'] == 'ERR' or op[1] not in lang:
+                continue
+            l = lang[op[1]]
+            sec = canon(c['sections']).get('nunavut.lang.' + l, {})
+            forced = set()
+            if l == 'py':
+                forced.add('enable_serialization_asserts')
+            if l == 'cpp' and isinstance(sec.get('defaults'), dict):
+                forced.add('std')
+                for g in sec['defaults'].values():
+                    if isinstance(g, dict):
+                        forced |= set(g)
+            for k, v in over.get(op[1], {}).items():
+                if not isinstance(v, dict):
+                    if not v[1] and sec.get(k) != v:
+                        bad.append(('explicit API override %s is not what the new context reports' % k, v, sec.get(k)))
+                    continue
+                have = sec.get(k) if isinstance(sec.get(k), dict) else {}
+                for ck, cvv in v.items():
+                    if isinstance(cvv, dict) or cvv[1] or (k == 'options' and ck in forced):
+                        continue
+                    if have.get(ck) != cvv:
+                        bad.append(('explicit API override %s.%s is not what the new context reports' % (k, ck), cvv, have.get(ck)))
+    return bad
 
 
 def main(chk: core.Check, replay: typing.Optional[str] = None) -> int:
@@ -579,13 +671,15 @@ def main(chk: core.Check, replay: typing.Optional[str] = None) -> int:
                     else:
                         bad_oracle.append((r, 'context %d (builder %d) reports something else than when it was created' % (ci, bi),
                                            at_create, canon(final_v)))
+            for what, exp, got in explicit_overrides_win(r['ops'], o['creates']):
+                bad_oracle.append((r, what, exp, got))
             if 'perm_of' in r:
                 base_case, base_out = by_id[r['perm_of']]
                 if 'err' not in base_out and canon(base_out['final'][0]) != canon(o['final'][0]):
                     bad_oracle.append(({'kind': 'proc', 'ops': base_case['ops'], 'permuted': r['ops']},
                                        'two interleavings with the same files, overrides and language give different configurations',
                                        canon(base_out['final'][0]), canon(o['final'][0])))
-            if m is not None and (not reused or reuse_live):
+            if m is not None:
                 stats['model_vs_impl_compared'] += 1
                 if len(m['creates']) != len(o['creates']):
                     bad_model.append((r, 'number of create() results', len(m['creates']), len(o['creates'])))
@@ -603,6 +697,9 @@ def main(chk: core.Check, replay: typing.Optional[str] = None) -> int:
                         if m['final'] != [canon(x) for x in o['final']]:
                             bad_model.append((r, 'Config.prun vs builders: final configuration of every builder', m['final'],
                                               [canon(x) for x in o['final']]))
+                        elif m['ctx_final'] != [canon(x) for _, x in o['ctx_final']]:
+                            bad_model.append((r, 'Config.ctx_report vs what every context reports at the end', m['ctx_final'],
+                                              [canon(x) for _, x in o['ctx_final']]))
         else:  # cli
             stats['oracle_vs_impl_compared'] += 1
             if o['options'] != 'ERR':
@@ -619,6 +716,12 @@ def main(chk: core.Check, replay: typing.Optional[str] = None) -> int:
                     want = ('L', False, ('B', True)) if given else file_opts.get(f, ('L', True, ('B', False)))
                     if got_opts.get(f) != want:
                         bad_oracle.append((r, 'CLI flag %s: effective value is not (flag given ? True : file value)' % f, want, got_opts.get(f)))
+                # oracle: an option given explicitly on the command line beats every file
+                if '--target-endianness' in r['argv']:
+                    want = ('L', False, r['argv'][r['argv'].index('--target-endianness') + 1])
+                    if got_opts.get('target_endianness') != want:
+                        bad_oracle.append((r, 'explicit --target-endianness does not win over the configuration files', want,
+                                           got_opts.get('target_endianness')))
                 # oracle: a -std shorthand given on the command line sets its whole (merged) group
                 std = o['args'].get('language_standard')
                 grp = exp_sec.get('nunavut.lang.cpp', {}).get('defaults', {}).get(std) if r['lang'] == 'cpp' and isinstance(std, str) else None
